@@ -115,13 +115,15 @@ structure Out where
   kept : List UInt64     -- recorded words minus finished discarded groups (= `prune`)
   toks : List Tok        -- full recording with group brackets
   evs : List Ev
+  overran : Bool         -- `invalidData("overrun")` was raised at least once (it may have been recovered)
 deriving Inhabited
 
-def Out.ofRes (r : Except Err Val) (src : Src) (ts : TS) : Out := ⟨r, src, ts, [], [], [], []⟩
+def Out.ofRes (r : Except Err Val) (src : Src) (ts : TS) : Out := ⟨r, src, ts, [], [], [], [], false⟩
 
 /-- prefix recorded material of an earlier part of the run -/
-def Out.after (o : Out) (used kept : List UInt64) (toks : List Tok) (evs : List Ev) : Out :=
-  { o with used := used ++ o.used, kept := kept ++ o.kept, toks := toks ++ o.toks, evs := evs ++ o.evs }
+def Out.after (o : Out) (used kept : List UInt64) (toks : List Tok) (evs : List Ev) (ov : Bool := false) : Out :=
+  { o with used := used ++ o.used, kept := kept ++ o.kept, toks := toks ++ o.toks, evs := evs ++ o.evs,
+           overran := ov || o.overran }
 
 /-- result of running cleanup callbacks -/
 structure COut where
@@ -172,7 +174,7 @@ def Prog.run : Prog → Src → TS → Out
   | .throw e, src, ts => .ofRes (.error e) src ts
   | .draw n k, src, ts =>
       match src.next n with
-      | none => .ofRes (.error (.invalid "overrun")) src ts
+      | none => { Out.ofRes (.error (.invalid "overrun")) src ts with overran := true }
       | some (u, src') => ((k u).run src' ts).after [u] [u] [.w u] []
   | .group l s b d k, src, ts =>
       let o := b.run src ts
@@ -184,13 +186,13 @@ def Prog.run : Prog → Src → TS → Out
                    toks := .opn l s :: o.toks ++ [.abort] }
         else
           ((k v).run o.src o.ts).after o.used (if d v then [] else o.kept)
-            (.opn l s :: o.toks ++ [.cls (d v)]) o.evs
+            (.opn l s :: o.toks ++ [.cls (d v)]) o.evs o.overran
   | .catchInv b k, src, ts =>
       let o := b.run src ts
       match o.res with
-      | .ok v => ((k (some v) (o.ts.draws != ts.draws)).run o.src o.ts).after o.used o.kept o.toks o.evs
+      | .ok v => ((k (some v) (o.ts.draws != ts.draws)).run o.src o.ts).after o.used o.kept o.toks o.evs o.overran
       | .error (.invalid _) =>
-          ((k none (o.ts.draws != ts.draws)).run o.src o.ts).after o.used o.kept o.toks o.evs
+          ((k none (o.ts.draws != ts.draws)).run o.src o.ts).after o.used o.kept o.toks o.evs o.overran
       | .error _ => o
   | .errorf m k, src, ts => k.run src { ts with failed := some m }
   | .failOnError site k, src, ts =>
@@ -217,7 +219,7 @@ def Prog.run : Prog → Src → TS → Out
       | none =>
         match o.res with
         | .error _ => { o with ts := ts', evs := evs }
-        | .ok v => ((k v).run o.src ts').after o.used o.kept o.toks evs
+        | .ok v => ((k v).run o.src ts').after o.used o.kept o.toks evs o.overran
   | .emit id k, src, ts => (k.run src ts).after [] [] [] [.user id]
 
 /-- sequencing -/
